@@ -44,6 +44,19 @@ def lines(ctx):
             toks.append(rnd.choice(INTS[:12]) if r < 0.45 else rnd.choice(NAMES) if r < 0.9 else rnd.choice(HEXES))
         z = 1 if rnd.random() < 0.15 else 0
         out.append(exec_line(sv, fl, sc, st, succ, n, toks, z=z, weight=w))
+    # exec after a step that failed (EXECF: the failing step ends the prefix; the session stays where it was): what exec reports is
+    # about its own operations, not about the step before it
+    failing = [("0500000080008b51", []), ("8b", []), ("0069", []), ("0201008b", []), ("6a51", []), ("51638b", []), ("6b6c6c", [b"\x01"]),
+               ("5187", []), ("00000088", []), ("93", [b"\x01"]), ("519f", []), ("04ffffffff8b", []), ("7551", []), ("01017c", [])]
+    after = [["OP_DROP", "OP_DROP"], ["OP_DROP"], ["OP_1ADD"], ["OP_VERIFY"], ["1", "2", "OP_ADD"], ["0000008000", "OP_1ADD"], ["OP_RETURN"],
+             ["OP_FROMALTSTACK"], ["OP_0", "OP_IF", "OP_RSHIFT", "OP_ENDIF"], ["OP_DUP", "OP_DROP"], ["0100", "OP_NOT"], ["OP_ELSE"], ["OP_CAT"]]
+    for (sc, st) in failing:
+        scb = bytes.fromhex(sc)
+        for sv in (0, 1, 3):
+            for fl in (R.STD, 0):
+                for n in range(1, 5):
+                    for toks in after:
+                        out.append(exec_line(sv, fl, scb, st, b"", n, toks, weight=(1000 if sv == 3 else None)).replace("EXEC ", "EXECF ", 1))
     # on generated deep sessions
     base = ctx.driver_gen(["run", ctx.seed + 1600, 300 if quick else 5000, 60, 0])
     for l in base:
